@@ -26,17 +26,21 @@ ApplyOp(d, op) ==
       [] op.k = "s" -> [d EXCEPT !.pos = IF op.to = -1 THEN Len(d.bytes) ELSE op.to]
       [] op.k = "f" -> [d EXCEPT !.unflushed = FALSE]
 
-RECURSIVE ApplyOps(_, _)
-ApplyOps(d, ops) == IF ops = << >> THEN d ELSE ApplyOps(ApplyOp(d, Head(ops)), Tail(ops))
+\* operations lo..hi in order (balanced recursion: depth log n, see EsriBytes)
+RECURSIVE ApplyRange(_, _, _, _)
+ApplyRange(d, ops, lo, hi) ==
+    IF hi < lo THEN d
+    ELSE IF hi = lo THEN ApplyOp(d, ops[lo])
+    ELSE LET mid == (lo + hi) \div 2 IN ApplyRange(ApplyRange(d, ops, lo, mid), ops, mid + 1, hi)
+ApplyOps(d, ops) == ApplyRange(d, ops, 1, Len(ops))
 
 (***************************************************************************)
 (* Crash model (C11).  What is persisted after a crash is, per             *)
 (* destination and independently, the effect of a prefix of its operation  *)
 (* sequence plus a byte prefix of the next write.                          *)
 (***************************************************************************)
-RECURSIVE BytesAfter(_, _, _)
 \* the device after the first i operations (seeks included)
-BytesAfter(ops, i, d) == IF i = 0 THEN d ELSE BytesAfter(Tail(ops), i - 1, ApplyOp(d, Head(ops)))
+BytesAfter(ops, i, d) == ApplyRange(d, ops, 1, i)
 
 CutBytes(ops, i, c) ==
     LET d == BytesAfter(ops, i, Dev0)
@@ -44,10 +48,11 @@ CutBytes(ops, i, c) ==
         ELSE Patch(d.bytes, d.pos, SubSeq(ops[i + 1].data, 1, c))
 
 \* number of shapes committed by the flushes among the first i operations
-RECURSIVE CommittedAt(_, _)
-CommittedAt(ops, i) ==
-    IF i = 0 THEN 0
-    ELSE IF ops[i].k = "f" THEN Max2(ops[i].n, CommittedAt(ops, i - 1)) ELSE CommittedAt(ops, i - 1)
-
+RECURSIVE MaxFlush(_, _, _)
+MaxFlush(ops, lo, hi) ==
+    IF hi < lo THEN 0
+    ELSE IF hi = lo THEN (IF ops[lo].k = "f" THEN ops[lo].n ELSE 0)
+    ELSE LET mid == (lo + hi) \div 2 IN Max2(MaxFlush(ops, lo, mid), MaxFlush(ops, mid + 1, hi))
+CommittedAt(ops, i) == MaxFlush(ops, 1, i)
 
 =============================================================================
